@@ -6,7 +6,9 @@
 //!   regression          max/mean/median absolute error, MSE, MSLE, MAPE, R2, explained variance; f32/f64; 1-D, 2-D, datasets
 //!   roc_random          ROC curve, AUC (= Mann-Whitney), log-loss on grid / boundary / fine scores
 //!   roc_exhaustive      every (score, label) vector over scores {0, 1/2, 1}, length <= 5 / 7
-//!   silhouette          O(n^2) definition, clusters of >= 2 distinct points
+//!   roc_near_ties       raw f32 scores a few ulps apart at magnitudes 1e-6 .. 1 (and next to 0 and 1)
+//!   roc_adjacent_exhaustive  every vector over {base, base+1ulp, base+2ulp} x label for eleven bases
+//!   silhouette          O(n^2) definition, clusters of >= 2 distinct points, plain and derived datasets
 //!   pearson             cov/(sd sd), upper-triangle order
 //! Every sub-check also applies one common permutation and demands unchanged scores.
 
@@ -25,10 +27,12 @@ pub fn property() -> Property {
         rule: "label vectors: exhaustive over alphabets of 2 symbols (length 1..=6) and 3 symbols (length 1..=5 quick / 6 thorough), both vectors, \
                label type (bool/usize/String) and beta rotating; random vectors of length <= 60 over <= 5 symbols whose label sets overlap only partly. \
                Probability vectors: every (score,label) vector over scores {0,1/2,1} up to length 5 (7 thorough) plus random vectors (length 2..=40) over the grid j/8, \
-               the boundaries 0 and 1, a small tie pool and fine scores k/2^20; both classes present. Real vectors/matrices (length 2..=40, 1..=3 columns, f32 and f64): \
+               the boundaries 0 and 1, a small tie pool and fine scores k/2^20, plus raw-f32 scores 0..=4 ulps around up to three base values at magnitudes 2^-21..1 (and around 0 and 1) \
+               (random, length 2..=24, and exhaustive over {base, base+1ulp, base+2ulp} x label up to length 4 / 5 for eleven bases); both classes present. Real vectors/matrices (length 2..=40, 1..=3 columns, f32 and f64): \
                small integers, halves, N(0,1)*10^s (s in -2..=3), positive data, common offsets up to 1000 spreads, truth non-constant by construction. \
-               Clusterings: 2..=4 clusters of >= 2 distinct points, 4..=30 points in 1..=3 dims (lattice / separated / overlapping). Pearson: n 3..=30, p 2..=5. \
-               Non-trivial = (labels) >= 3 classes or a label present on one side only; (roc) tied scores or a score equal to 0 or 1; \
+               Clusterings: 2..=4 clusters of >= 2 distinct points, 4..=30 points in 1..=3 dims (lattice / separated / overlapping), each scored as plain Dataset and through the construction histories \
+               view, with_labels(all / proper subset, also after view), CountedTargets::new, split_with_ratio (owned and view), one_vs_all. Pearson: n 3..=30, p 2..=5. \
+               Non-trivial = (labels) >= 3 classes or a label present on one side only; (roc) tied scores, a score equal to 0 or 1, or distinct scores within 4 ulps; \
                (regression) non-zero mean error, or even length with distinct middle errors, or >= 2 target columns; \
                (silhouette) >= 3 clusters, unequal cluster sizes or duplicate points; (pearson) >= 3 features or a negative coefficient. \
                Distinct = distinct canonical JSON of the case.",
@@ -38,7 +42,8 @@ pub fn property() -> Property {
             "precision/recall/F-beta are the *documented* functions of the cells: binary c00/(c00+c10) and c00/(c00+c01), otherwise the macro average over the one-vs-all matrices [[tp,fp],[fn,tn]]; 0/0 must be NaN on both sides".into(),
             format!("scores derived from integer cells are f32; tolerance {:e} * max(1,|value|) (64 eps_f32)", labels::RATIO_TOL),
             "empty label vectors are not generated (every score is 0/0 there)".into(),
-            format!("ROC scores are multiples of 2^-20 (distinct scores differ by >= 2^-20 >> linfa's 1e-10 merge threshold); AUC tolerance {:e} (64 eps_f32); both classes present", roc::AUC_TOL),
+            format!("ROC scores are arbitrary f32 in [0,1] (grid multiples of 2^-20 in roc_random / roc_exhaustive, raw bit patterns incl. subnormals in roc_near_ties / roc_adjacent_exhaustive); a tie is an *equal* score; AUC tolerance {:e} (64 eps_f32); both classes present", roc::AUC_TOL),
+            "linfa's absolute 1e-10 grouping of distinct scores is recognised by its own signature (known finding roc:distinct-scores-within-1e-10-merged) only when the returned curve is exactly the curve of that rule; any other AUC deviation fails as roc:auc".into(),
             "ROC thresholds (get_thresholds) are not part of the statement and are not judged".into(),
             "log-loss clips to [f32::EPSILON, 1 - f32::EPSILON]; the reference is evaluated in f64 with the error bound below".into(),
             format!(
@@ -51,6 +56,7 @@ pub fn property() -> Property {
             "R2 and explained variance carry the documented +1e-10 guard in the denominator; truth columns are non-constant".into(),
             "explained variance textbook value = 1 - sum (d - mean d)^2 / (SST + 1e-10); linfa's pinned value 1 - (SSE - mean d)/(SST + 1e-10) is recognised by its own signature (known finding), any other deviation fails".into(),
             "silhouette: Euclidean distances, clusters with fewer than two distinct points are outside the quantifier and are not generated".into(),
+            "silhouette on a derived dataset (view / with_labels / CountedTargets::new / split_with_ratio / one_vs_all): the reference is the textbook value of the records and targets read back from that dataset; a derived dataset that leaves the quantifier (one cluster, a cluster without two distinct points) is counted and not judged".into(),
             "Pearson p-values use an entropy-seeded RNG and are outside the statement; cases whose error bound exceeds 0.25 (spread at rounding level of the offset) are not judged".into(),
             "permutation invariance: exact for confusion matrices, ROC curves/AUC, max/median errors; within 2 tolerances for sums".into(),
         ],
@@ -60,6 +66,9 @@ pub fn property() -> Property {
             prop_sub("regression", 30000, 600000, |t: Tier| regress::strategy(t), regress::check).chunks(16),
             prop_sub("roc_random", 40000, 800000, |t: Tier| roc::strategy(t), roc::check).chunks(16),
             enum_sub("roc_exhaustive", |t: Tier| roc::enum_cases(t), roc::check),
+            prop_sub("roc_near_ties", 20000, 400000, |t: Tier| roc::near_strategy(t), roc::check_near)
+                .require(&["within_4_ulps_but_further_than_1e-10", "positive_and_negative_within_4_ulps"]),
+            enum_sub("roc_adjacent_exhaustive", |t: Tier| roc::enum_near_cases(t), roc::check_near),
             prop_sub("silhouette", 10000, 200000, |t: Tier| cluster::strategy(t), cluster::check),
             prop_sub("pearson", 10000, 200000, |t: Tier| corr::strategy(t), corr::check),
         ],
